@@ -1,5 +1,5 @@
 (** Small list utilities shared by models and specs. *)
-From Coq Require Import NArith List Lia Arith.
+From Coq Require Import NArith List Lia Arith Bool.
 Import ListNotations.
 
 Fixpoint upd {A} (i : nat) (x : A) (l : list A) : list A :=
@@ -91,4 +91,21 @@ Lemma nth_map_seq {A} (f : nat -> A) n i d : i < n -> nth i (map f (seq 0 n)) d 
 Proof.
   intros H. rewrite (nth_indep _ d (f 0)) by (rewrite map_length, seq_length; lia).
   rewrite map_nth, seq_nth by lia. reflexivity.
+Qed.
+
+(** decidable equality of word lists *)
+Fixpoint nlist_eqb (a b : list N) : bool :=
+  match a, b with
+  | [], [] => true
+  | x :: a', y :: b' => N.eqb x y && nlist_eqb a' b'
+  | _, _ => false
+  end.
+
+Lemma nlist_eqb_eq a b : nlist_eqb a b = true <-> a = b.
+Proof.
+  revert b; induction a as [|x a IH]; intros [|y b]; simpl; split; intro H;
+    try reflexivity; try discriminate.
+  - apply andb_prop in H. destruct H as [H1 H2].
+    apply N.eqb_eq in H1. apply IH in H2. congruence.
+  - injection H as -> ->. rewrite N.eqb_refl. simpl. now apply IH.
 Qed.
